@@ -28,7 +28,7 @@ RULE = ('token soups, generated documents (docgen, default and custom context) a
         '(strict_braces True/False/None), get_latex_braced_group (brace types, pairs, invalid), get_latex_environment '
         '(name None / matching / other / empty), get_latex_maybe_optional_arg; strict and tolerant walkers; default and '
         'in-math parsing state; MacroStandardArgsParser.parse_args for ALL 121 argument strings over {*,[,{} up to length 4 '
-        '(x optional_arg_no_space x args_math_mode); all 121 strings through each of 8 spellings + std_macro(optarg,numargs). '
+        '(x optional_arg_no_space x args_math_mode); all 121 strings through each of 8 spellings + std_macro(optarg,numargs) + 3 environment spellings with a pylatexenc-2 parser object (declared math body, inner_parsing_state), trees compared with modes. '
         'Non-trivial: the string has an active character and length >= 3, or an argument string of length >= 1.')
 EXHAUSTIVE = {'quick': True, 'thorough': True}
 ASSUMPTIONS = ['model of the parser stack (frozen, validated separately) and of the legacy shims validated only by this correspondence',
@@ -45,7 +45,11 @@ EXN = {'ReachedStoppingCondition': 1, 'KeyError': 2, 'TypeError': 3, 'AttributeE
 ARG_STRINGS = [''.join(t) for n in range(5) for t in itertools.product('*[{', repeat=n)]
 SPELLINGS = ['args_parser=str', 'positional str', 'std_macro(str)', 'std_macro(None,str)', 'std_environment(str)',
              'args_parser=MacroStandardArgsParser(str)', 'args_parser=MacroStandardArgsParser(argspec=str)',
-             'positional MacroStandardArgsParser(str)']
+             'positional MacroStandardArgsParser(str)', 'std_macro(optarg,numargs)',
+             'EnvironmentSpec(args_parser=MacroStandardArgsParser(str), is_math_mode=True)',
+             'EnvironmentSpec(positional MacroStandardArgsParser(str), is_math_mode=True)',
+             'EnvironmentSpec(args_parser=<pylatexenc-2 parser returning inner_parsing_state>)']
+MODEL_SPELLING = {9: 5, 10: 7, 11: 5}       # which parser object the spec ends up with is the same question
 TRI = {None: 0, True: 1, False: 2}
 
 # ---------------------------------------------------------------------------------------------
@@ -79,7 +83,7 @@ def mk_case(d):
         if d['spelling'] == 8:
             wire = [1606, 8, TRI[d['optarg']], d['n']]
         else:
-            wire = [1606, d['spelling']] + w_str(d['a'])
+            wire = [1606, MODEL_SPELLING.get(d['spelling'], d['spelling'])] + w_str(d['a'])
         return {'wire': wire, 'desc': d, 'nt': len(d.get('a', 'x')) >= 1}
     h = _header(d)
     if sub == 0:
@@ -221,6 +225,8 @@ def gen_cases(seed, tier):
     for a in ARG_STRINGS:
         for sp in range(8):
             cases.append(mk_case({'sub': 6, 'spelling': sp, 'a': a, 'origin': 'spelling'}))
+        for sp in (9, 10, 11):
+            cases.append(mk_case({'sub': 6, 'spelling': sp, 'a': a, 'origin': 'spelling-env'}))
     for o in (None, True, False):
         for n in range(5):
             cases.append(mk_case({'sub': 6, 'spelling': 8, 'optarg': o, 'n': n, 'origin': 'spelling'}))
@@ -327,7 +333,25 @@ def build_spec(sp, a, name='foo'):
         return MacroSpec(name, args_parser=make_legacy_obj(a, kw=True))
     if sp == 7:
         return MacroSpec(name, make_legacy_obj(a))
+    from pylatexenc.macrospec import EnvironmentSpec
+    if sp == 9:
+        return EnvironmentSpec(name, args_parser=make_legacy_obj(a), is_math_mode=True)
+    if sp == 10:
+        return EnvironmentSpec(name, make_legacy_obj(a), is_math_mode=True)
+    if sp == 11:
+        return EnvironmentSpec(name, args_parser=_inner_state_parser(a))
     raise ValueError(sp)
+
+
+def _inner_state_parser(a):
+    """the pylatexenc-2 protocol: parse_args may return a fourth element with 'inner_parsing_state'"""
+    from pylatexenc.macrospec import MacroStandardArgsParser
+
+    class InnerMath(MacroStandardArgsParser):
+        def parse_args(self, w, pos, parsing_state=None):
+            r = MacroStandardArgsParser.parse_args(self, w, pos, parsing_state=parsing_state)
+            return r[0], r[1], r[2], dict(inner_parsing_state=parsing_state.sub_context(in_math_mode=True))
+    return InnerMath(a)
 
 
 def dump_spec(spec):
@@ -691,7 +715,8 @@ def _norm_tree_args(nl):
     """N1 inside trees: single-token macro/specials arguments of \\foo have nodeargd None on the legacy side"""
     from pylatexenc.latexnodes import nodes as N
     for n in treedump.iter_nodes(nl):
-        if isinstance(n, N.LatexMacroNode) and n.macroname == 'foo' and n.nodeargd is not None:
+        if ((isinstance(n, N.LatexMacroNode) and n.macroname == 'foo')
+                or (isinstance(n, N.LatexEnvironmentNode) and n.environmentname == 'foo')) and n.nodeargd is not None:
             spec = n.nodeargd.arguments_spec_list
             for j, x in enumerate(n.nodeargd.argnlist or []):
                 if x is not None and isinstance(x, (N.LatexMacroNode, N.LatexSpecialsNode)) and treedump._argspec_chars(n.nodeargd)[j] == '{':
@@ -750,16 +775,16 @@ def _oracle_spelling(d):
         return ('spelling-argspec-differs', {'spelling': sp, 'argspec': spec.arguments_parser.argspec, 'expected': a})
     if spec.args_parser is not spec.arguments_parser:
         return ('args_parser-is-not-arguments_parser', {'spelling': sp})
-    if ''.join(treedump._argspec_chars(spec)) != a and sp not in (5, 6, 7):
+    if ''.join(treedump._argspec_chars(spec)) != a and sp not in (5, 6, 7, 9, 10, 11):
         return ('spelling-arguments_spec_list-differs', {'spelling': sp, 'list': repr(spec.arguments_spec_list)[:200]})
-    if sp == 4:
+    if sp in (4, 9, 10, 11):
         env_docs = ['\\begin{foo}' + x[4:] + '\\end{foo}' for x in spelling_docs(a)[:4]]
         from pylatexenc.macrospec import EnvironmentSpec
-        ref = EnvironmentSpec('foo', [c for c in a])
+        ref = EnvironmentSpec('foo', [c for c in a], is_math_mode=(sp != 4))
         docs = env_docs
     else:
         docs = spelling_docs(a)
-    legacy = sp in (5, 6, 7)
+    legacy = sp in (5, 6, 7, 9, 10, 11)
     for s in docs:
         for tol in (False, True):
             A = _parse_doc(spec, s, tol)
